@@ -5,6 +5,7 @@ import (
 	"encoding/binary"
 	"fmt"
 	"strings"
+	"testing/iotest"
 
 	"github.com/Eyevinn/mp4ff/mp4"
 
@@ -446,6 +447,18 @@ func e1EvalFile(x []byte, p e1Props) (out e1FileOut) {
 			}
 			if d := deepeq.Diff(f1.Children, fr.Children, &deepeq.Options{Ignore: c01Ignore}); d != "" {
 				*fails = append(*fails, e1Fail{"C03", "file decoders give different structures " + fieldOf(d), "both decode paths yield equivalent structures", d})
+			}
+			// the io.Reader path fed one byte per Read call (a reader is free to return fewer bytes than asked for)
+			var f2 *mp4.File
+			var err2 error
+			if pan := call(func() { f2, err2 = mp4.DecodeFile(iotest.OneByteReader(bytes.NewReader(x))) }); pan == "" {
+				if err2 != nil || f2 == nil {
+					*fails = append(*fails, e1Fail{"C03", "file reader path rejects a fixed point when the reader returns one byte per Read: " + errRoot(err2), "the io.Reader path accepts the same bytes from any reader that honours the io.Reader contract", fmt.Sprint(err2)})
+				} else if a, b := fileShape(fr), fileShape(f2); a != b {
+					*fails = append(*fails, e1Fail{"C03", "file shape differs when the reader returns one byte per Read", "the io.Reader path gives the same grouping from any reader", a + " vs " + b})
+				} else if d := deepeq.Diff(fr.Children, f2.Children, &deepeq.Options{Ignore: c01Ignore}); d != "" {
+					*fails = append(*fails, e1Fail{"C03", "file reader path gives a different structure when the reader returns one byte per Read " + fieldOf(d), "the io.Reader path yields the same structure from any reader", d})
+				}
 			}
 		}
 	}
